@@ -155,6 +155,10 @@ type knownFinding struct {
 	Property string `json:"property"`
 	Key      string `json:"key"`  // rule|construct
 	What     string `json:"what"` // human description: the failing input / site
+	// Instances: the failing inputs (model names) this finding is about. The obligation is the
+	// known finding only while every failing part of its report names one of them: another input
+	// failing under the same rule is a new violation.
+	Instances []string `json:"instances"`
 }
 
 type knownFile struct {
@@ -184,7 +188,24 @@ func (c *Check) Finish() int {
 		for i := range known.Findings {
 			f := &known.Findings[i]
 			if f.Property == c.ID && f.Key == o.Key() {
-				return f
+				if len(f.Instances) == 0 {
+					return f
+				}
+				all := true
+				for _, part := range strings.Split(o.Detail, " || ") {
+					covered := false
+					for _, inst := range f.Instances {
+						if strings.Contains(part, inst) {
+							covered = true
+						}
+					}
+					if !covered {
+						all = false
+					}
+				}
+				if all {
+					return f
+				}
 			}
 		}
 		return nil
